@@ -11,8 +11,8 @@ Definition l2s (l : list N) : string := string_of_list_ascii (map ascii_of_N l).
 (* ---- generic helpers ---- *)
 Fixpoint split_go (sep : N) (l cur : list N) : list (list N) :=
   match l with
-  | [] => [rev cur]
-  | c :: r => if c =? sep then rev cur :: split_go sep r [] else split_go sep r (c :: cur)
+  | [] => [rev_append cur []]
+  | c :: r => if c =? sep then rev_append cur [] :: split_go sep r [] else split_go sep r (c :: cur)
   end.
 Definition split (sep : N) (l : list N) : list (list N) := split_go sep l [].
 
